@@ -25,6 +25,10 @@ func C14Configs(p *spec.Program) []spec.Config {
 		"Sink.Status.Str": {"UsePathValidator()"}, "Leaf.Str": {"UseTypeValidator()", "UseSimValidator()"}}
 	b.PlanModifiers = map[string][]string{"Sink.Spec.Name": {"PathModifier()"}, "Mid.Name": {"TypeModifier()"}, "Leaf.Num": {"TypeModifier()"}, "Sink.Status.Num": {"PathModifier()"}}
 	b.NameOverrides = map[string]string{"Naming.Overridden": "renamed", "Leaf.Flag": "flag_x", "Sink.Status.Flag": "flag_by_path", "Sink.Spec.Name": "name_by_path", "Mid.Name": "name_by_type"}
+	// a message-typed field and fields below it in the same flag list (the parent does not imply the child)
+	b.ComputedFields = append(b.ComputedFields, "Sink.Spec", "Sink.Spec.Leaf", "Sink.Spec.Leaf.Str", "Nesting.PtrList", "Nesting.PtrList.Name")
+	b.RequiredFields = append(b.RequiredFields, "Nesting.Val", "Nesting.Val.Name", "Sink.Index", "Sink.Index.Num")
+	b.SensitiveFields = append(b.SensitiveFields, "Sink.Parts", "Sink.Parts.Name", "Sink.Parts.Leaf.Str")
 	tt, dt := *spec.SimTimeType, *spec.SimDurationType
 	tt.TypeConstructor, dt.TypeConstructor = "UseSimTime()", "example.com/x/wrappers.UseDuration()"
 	b.TimeType, b.DurationType = &tt, &dt
